@@ -1,0 +1,21 @@
+//go:build verif
+
+package marshal
+
+// Contracts for /verif (contract-based deductive verification of this package).
+// Comment-only file: only the lines starting with "//@" are read, by /verif/bin/govc.
+
+// ---------------------------------------------------------------- times on the wire and in the cache (C13 C17)
+
+// A time is written as "<seconds>+<nanoseconds>", both taken from the time itself (Unix and
+// Nanosecond are defined for every time.Time; UnixNano is not), and read back as exactly
+// time.Unix(seconds, nanoseconds) - the value the rest of the code compares with == against file
+// modification times.
+//@ func (NanoTime).MarshalJSON
+//@   before call encoding/json.Marshal assert seconds-plus-nanoseconds: called((time.Time).Unix) && called((time.Time).Nanosecond) && lastarg((time.Time).Unix, 0) == t.Time && lastarg((time.Time).Nanosecond, 0) == t.Time && as(arg0, string) == itoa(lastret((time.Time).Unix, 0)) + "+" + itoa(lastret((time.Time).Nanosecond, 0))
+//@   on return assert result-is-the-encoding: called(encoding/json.Marshal) && ncalls(encoding/json.Marshal) == 1
+//@   modifies nothing
+
+//@ func (*NanoTime).UnmarshalJSON
+//@   on return assert string-form-decodes-exactly: r0 == nil && typeis(raw, string) ==> called(strconv.ParseInt) && ncalls(strconv.ParseInt) == 2 && lastret(strconv.ParseInt, 1) == nil && prevret(strconv.ParseInt, 1, 1) == nil && sec == prevret(strconv.ParseInt, 1, 0) && nano == lastret(strconv.ParseInt, 0) && t.Time == time.Unix(sec, nano)
+//@   modifies everything
